@@ -56,13 +56,13 @@ Print Assumptions C16_issuance_requires_owner.
 Theorem C16_incoming_swap_requires_deputy :
   forall e s b rcp d amt rest,
   (forall x, find_b3 s d = Some x -> b <> b3_deputy x /\ rcp <> b3_deputy x) ->
-  step e s (CreateSwap b rcp d amt rest) = Err.
+  step e s (CreateSwap b rcp [(d, amt)] rest) = Err.
 Proof. exact incoming_swap_requires_deputy. Qed.
 Print Assumptions C16_incoming_swap_requires_deputy.
 
 Theorem C16_swap_direction :
   forall e s a rcp d amt rest s' out,
-  step e s (CreateSwap a rcp d amt rest) = Ok s' out ->
+  step e s (CreateSwap a rcp [(d, amt)] rest) = Ok s' out ->
   exists x, find_b3 s d = Some x /\
     ((a = b3_deputy x /\ rcp <> b3_deputy x /\ swaps s' = mkSwap a rcp d amt true :: swaps s) \/
      (a <> b3_deputy x /\ rcp = b3_deputy x /\ swaps s' = mkSwap a rcp d amt false :: swaps s)).
@@ -71,11 +71,26 @@ Print Assumptions C16_swap_direction.
 
 Theorem C16_deputy_message_from_other_signer :
   forall e s a rcp d amt rest s' out x,
-  step e s (CreateSwap a rcp d amt rest) = Ok s' out ->
+  step e s (CreateSwap a rcp [(d, amt)] rest) = Ok s' out ->
   find_b3 s d = Some x -> a = b3_deputy x ->
-  forall b r, b <> a -> step e s (CreateSwap b rcp d amt r) = Err.
+  forall b r, b <> a -> step e s (CreateSwap b rcp [(d, amt)] r) = Err.
 Proof. exact deputy_message_from_other_signer. Qed.
 Print Assumptions C16_deputy_message_from_other_signer.
+
+(* the deputy comparison, limits and supply accounting read one coin: a swap
+   creation is accepted only with exactly one coin, so no coin of an asset whose
+   deputy is somebody else can ride along (a claim mints the whole amount) *)
+Theorem C16_create_swap_single_coin :
+  forall e s a rcp amount rest s' out,
+  step e s (CreateSwap a rcp amount rest) = Ok s' out -> exists d amt, amount = [(d, amt)].
+Proof. exact create_swap_single_coin. Qed.
+Print Assumptions C16_create_swap_single_coin.
+
+Theorem C16_create_swap_multi_coin_refused :
+  forall e s a rcp amount rest,
+  length amount <> 1%nat -> step e s (CreateSwap a rcp amount rest) = Err.
+Proof. exact create_swap_multi_coin_refused. Qed.
+Print Assumptions C16_create_swap_multi_coin_refused.
 
 (* over every history: every swap recorded as incoming was sent by the deputy *)
 Theorem C16_incoming_swaps_from_deputy_all_histories :
@@ -241,7 +256,7 @@ Qed.
 Example C16_nonvacuous_principal_accepted :
   map (fun o => class_of (step ex_env ex_state o))
     [PostPrice 1 0 5 1001; Issue 2 0 7 5; Redeem 2 0 50; Block 2 0 5; SetPause 2 0 true;
-     CreateSwap 3 5 0 10 true; Submit 4 1 100 true; Vote 5 1 1; UpdateParams 6 (5, 0, 0);
+     CreateSwap 3 5 [(0%nat, 10)] true; Submit 4 1 100 true; Vote 5 1 1; UpdateParams 6 (5, 0, 0);
      CdpDraw 4 0 10 true; CdpRepay 4 0 10 true; CdpWithdraw 5 4 0 400 true;
      HardWithdraw 5 [(0%nat, 100)] true; SavWithdraw 5 [(1%nat, 30)];
      SwapWithdraw 5 0 5 1 1 true; EarnWithdraw 5 0 9000 9 9 false true]
@@ -251,7 +266,7 @@ Proof. vm_compute. reflexivity. Qed.
 Example C16_nonvacuous_other_signer_refused :
   map (fun o => class_of (step ex_env ex_state (with_signer o 0 true)))
     [Issue 2 0 7 5; Redeem 2 0 50; Block 2 0 5; SetPause 2 0 true;
-     CreateSwap 3 5 0 10 true; Submit 4 1 100 true; Vote 5 1 1; UpdateParams 6 (5, 0, 0);
+     CreateSwap 3 5 [(0%nat, 10)] true; Submit 4 1 100 true; Vote 5 1 1; UpdateParams 6 (5, 0, 0);
      CdpDraw 4 0 10 true; CdpRepay 4 0 10 true; CdpWithdraw 5 4 0 400 true;
      HardWithdraw 5 [(0%nat, 100)] true; SavWithdraw 5 [(1%nat, 30)];
      SwapWithdraw 5 0 5 1 1 true; EarnWithdraw 5 0 9000 9 9 false true]
